@@ -50,7 +50,7 @@ class Evidence(object):
         body = {'property_id': self.prop, 'tier': self.tier, 'seed': int(self.seed), 'level': self.level,
                 'coverage': cov, 'assumptions': self.assumptions, 'wall_s': round(self.wall, 2),
                 'violations': self.violations}
-        d = os.path.join(ROOT, 'evidence')
+        d = os.environ.get('VERIF_EVIDENCE_DIR') or os.path.join(ROOT, 'evidence')
         os.makedirs(d, exist_ok=True)
         with open(os.path.join(d, self.prop + '.json'), 'w') as f:
             json.dump(body, f, indent=1)
